@@ -444,21 +444,103 @@ func treeThenFeed(c *Ctx, rule string) {
 		return
 	}
 	c.Analysed(fnName(gu))
-	n := 0
-	for _, ci := range callsIn(gu) {
-		cc := ci.Common()
-		if cc.IsInvoke() || staticCallee(cc) != nil {
-			continue
-		}
-		if fieldOf(cc.Value) != clientF {
-			continue
-		}
-		n++
-		src := originCall(cc.Args[0], 0)
-		ok := src == "(*cache.Target).gnmiUpdate" || src == "(*cache.Target).gnmiRemove"
-		c.Check(ok, rule, fnName(gu), "feed argument "+Expr(cc.Args[0]), P.Pos(ci.Pos()), "argument originates from "+src)
+	// path-based, helpers inlined: the argument of every feed call resolves to the result of a
+	// gnmiUpdate / gnmiRemove call made earlier on the same path
+	isFeed := func(ev *Ev) bool {
+		return strings.HasPrefix(ev.Label, "call:dyn:") && ev.Fn.V != nil && fieldOf(ev.Fn.V) == clientF
 	}
-	c.Floor(rule, n, 5)
+	isProd := func(ev *Ev) bool {
+		return ev.Label == "call:(*cache.Target).gnmiUpdate" || ev.Label == "call:(*cache.Target).gnmiRemove"
+	}
+	e := &PPA{MaxVisits: 2, Watch: func(ev *Ev) bool { return isFeed(ev) || isProd(ev) }}
+	e.Run(gu)
+	c.Paths += len(e.Paths)
+	producers := map[ssa.Instruction]bool{}
+	type verdict struct {
+		ok  bool
+		src string
+		pos string
+	}
+	sites := map[ssa.Instruction]*verdict{}
+	for i := range e.Paths {
+		p := &e.Paths[i]
+		for j := range p.Trace {
+			ev := &p.Trace[j]
+			if !isFeed(ev) || len(ev.Args) != 1 {
+				continue
+			}
+			src := originCall(ev.Args[0].V, 0)
+			ok := src == "(*cache.Target).gnmiUpdate" || src == "(*cache.Target).gnmiRemove"
+			if ok {
+				// the producing call precedes the feed call on this path
+				oc := originCallInstr(ev.Args[0].V, 0)
+				found := false
+				for k := 0; k < j; k++ {
+					if p.Trace[k].In == ssa.Instruction(oc) {
+						found = true
+					}
+				}
+				ok = oc != nil && found
+				if ok {
+					producers[oc] = true
+				}
+			}
+			v := sites[ev.In]
+			if v == nil {
+				v = &verdict{ok: true, pos: P.Pos(posOf(ev.In))}
+				sites[ev.In] = v
+			}
+			if !ok {
+				v.ok = false
+				v.src = src + "; path: " + p.String()
+			} else if v.src == "" {
+				v.src = src
+			}
+		}
+	}
+	for in, v := range sites {
+		c.Check(v.ok, rule, fnName(in.Parent()), "feed argument "+Expr(in.(ssa.CallInstruction).Common().Args[0]), v.pos, "argument originates from "+v.src)
+	}
+	c.Floor(rule+"/producing-calls", len(producers), 3)
+}
+
+func originCallInstr(v ssa.Value, d int) *ssa.Call {
+	if d > 10 {
+		return nil
+	}
+	switch x := v.(type) {
+	case *ssa.Extract:
+		return originCallInstr(x.Tuple, d+1)
+	case *ssa.Call:
+		return x
+	case *ssa.UnOp:
+		return originCallInstr(x.X, d+1)
+	case *ssa.IndexAddr:
+		return originCallInstr(x.X, d+1)
+	case *ssa.Index:
+		return originCallInstr(x.X, d+1)
+	case *ssa.Next:
+		return originCallInstr(x.Iter, d+1)
+	case *ssa.Range:
+		return originCallInstr(x.X, d+1)
+	case *ssa.ChangeType:
+		return originCallInstr(x.X, d+1)
+	case *ssa.Phi:
+		var res *ssa.Call
+		for _, e := range x.Edges {
+			if _, isC := e.(*ssa.Const); isC {
+				continue
+			}
+			o := originCallInstr(e, d+1)
+			if res == nil {
+				res = o
+			} else if res != o {
+				return nil
+			}
+		}
+		return res
+	}
+	return nil
 }
 
 // originCall follows extracts / range-next / index / φ back to the call that produced a value.
